@@ -8,6 +8,8 @@ import (
 	"strings"
 
 	"bebopverif/internal/core"
+	"bebopverif/internal/geneval"
+	"bebopverif/internal/genfacts"
 	"bebopverif/internal/load"
 	"bebopverif/internal/wire"
 
@@ -17,7 +19,7 @@ import (
 func init() { register("C18", checkC18) }
 
 func checkC18(c *core.Ctx) {
-	c.Explainf("C18 (decided clauses). R1 worklist discipline in File.Generate: imports are appended to the worklist only past the miss edge of the `imported[path]` test and the path is marked imported on that path, so every file's imports are expanded once and the loop is bounded by the number of distinct paths. R2: the directory an import path is joined to depends on the worklist element (the importing file), not on a value computed once from the root file. R3 DFS discipline in dgraph.findCycle: the node is pushed on the stack on entry and popped on every non-cycle exit, the cycle test consults the stack before recursing, and nodes already fully explored are not descended into again (otherwise shared sub-graphs are re-walked exponentially). R4: both import modes cover every definition kind of File (combined mode appends every slice-typed field of File but Imports; separate mode namespaces and appends every record/enum kind), and FindCycle runs iff the mode is separate, before any output is written. R5: a graph edge is added for every import occurrence, before the de-duplication `continue`. NOT decided: 'exactly when cyclic' for files without go_package (node \"\"); wire equivalence with the inlined schema (C01-C03 on the concatenation).")
+	c.Explainf("C18 (decided clauses). R1 worklist discipline in File.Generate: imports are appended to the worklist only past the miss edge of the `imported[path]` test and the path is marked imported on that path, so every file's imports are expanded once and the loop is bounded by the number of distinct paths. R2: the directory an import path is joined to depends on the worklist element (the importing file), not on a value computed once from the root file. R3 DFS discipline in dgraph.findCycle: the node is pushed on the stack on entry and popped on every non-cycle exit, the cycle test consults the stack before recursing, and nodes already fully explored are not descended into again (otherwise shared sub-graphs are re-walked exponentially). R4: both import modes cover every definition kind of File (combined mode appends every slice-typed field of File but Imports; separate mode namespaces and appends every record/enum kind), and FindCycle runs iff the mode is separate, before any output is written. R5: a graph edge is added for every import occurrence, before the de-duplication `continue`. R6: the generator's source, folded by the evaluator over an import scenario (root -> sub/a.bop -> b.bop next to a) served from a virtual file system, opens each file relative to its importer, and in both modes the emitted file type-checks; combined mode declares every type the imported files define. NOT decided: 'exactly when cyclic' for files without go_package (node \"\"); wire equivalence with the inlined schema (C01-C03 on the concatenation).")
 	p := loadRepo(c)
 	if p == nil {
 		return
@@ -139,6 +141,8 @@ func checkC18(c *core.Ctx) {
 	guard := strings.Contains(strings.Join(strings.Fields(genSrc), " "), "if settings.ImportGenerationMode == ImportGenerationModeSeparate { if err := importGraph.FindCycle(); err != nil { return err } }")
 	c.Check("R4", "import cycles are searched in separate mode, before any output", p.Pos(gen.Pos()), guard && iCycle >= 0 && iCycle < iFirstWrite, "")
 
+	// ---- R6 import scenario, folded by the generator evaluator
+	importScenarioRules(c, p)
 	// ---- R3 DFS discipline
 	ig := p.Pkgs[load.Mod+"/internal/importgraph"]
 	if ig == nil {
@@ -218,4 +222,58 @@ func checkC18(c *core.Ctx) {
 		src := strings.Join(strings.Fields(srcOf(p, top.Body)), " ")
 		c.Check("R3", "FindCycle starts a search from every unvisited node", p.Pos(top.Pos()), strings.Contains(src, "if _, ok := visited[node]; ok { continue }") && strings.Contains(src, "d.findCycle(node, stack, visited,"), "")
 	}
+}
+
+// importScenarioRules folds File.Generate over root.bop -> sub/a.bop -> b.bop
+// (b lies next to a) with the import files served from a virtual file system,
+// in both modes, and checks: the paths opened are relative to the importer;
+// the emitted root file type-checks (against separately generated imported
+// packages in separate mode); combined mode declares every imported record.
+func importScenarioRules(c *core.Ctx, p *load.Prog) {
+	g, err := genfacts.NewGen(p)
+	if err != nil {
+		c.Undecide("generator evaluator: %v", err)
+		return
+	}
+	g.U.AddImportTypes()
+	all := geneval.AllOptions()
+	n := 0
+	for _, combined := range []bool{false, true} {
+		for _, o := range []geneval.Options{all[0], all[9]} {
+			ir := g.GenerateImports(o, combined)
+			n++
+			mode := "separate"
+			if combined {
+				mode = "combined"
+			}
+			pos := "gen.go (File.Generate)"
+			if ir.Root.EvalErr != nil {
+				c.Undecide("import scenario (%s): %v", mode, ir.Root.EvalErr)
+				continue
+			}
+			want := []string{genfacts.ImpAPath, genfacts.ImpBPath}
+			c.Check("R6", "import scenario ("+mode+"): files are opened relative to their importer", pos, fmt.Sprint(ir.Opened) == fmt.Sprint(want),
+				fmt.Sprintf("opened %v, expected %v (b.bop is imported by sub/a.bop and lies next to it)", ir.Opened, want))
+			c.Check("R6", "import scenario ("+mode+"): Generate succeeds", pos, ir.Root.GenErr == "", "Generate returned: "+ir.Root.GenErr)
+			if ir.Root.GenErr != "" {
+				continue
+			}
+			msg := ""
+			ok := ir.Root.ParseErr == nil && len(ir.Root.TypeErrs) == 0
+			if ir.Root.ParseErr != nil {
+				msg = ir.Root.ParseErr.Error()
+			} else if len(ir.Root.TypeErrs) > 0 {
+				msg = ir.Root.TypeErrs[0].Msg + " — " + ir.Root.Line(ir.Root.TypeErrs[0].Pos)
+			}
+			c.Check("R6", "import scenario ("+mode+"): the emitted file type-checks", pos, ok, "options "+o.String()+": "+msg)
+			if combined && ir.Root.Pkg != nil {
+				for _, name := range []string{"ISt", "IMs", "IUn", "IUb", "IBs", "IEn", "RS", "RM"} {
+					obj := ir.Root.Pkg.Scope().Lookup(genfacts.GoTypeName(name, o))
+					c.Check("R6", "combined mode declares imported type "+name, pos, obj != nil, "the single file combined mode emits does not declare a type an imported file defines")
+				}
+			}
+		}
+	}
+	c.Count("import_scenarios", n)
+	c.Floor("import_scenarios", 4)
 }
